@@ -275,6 +275,35 @@ theorem c06_base64_lax_witness :
     validB64 "YQ=!=".toList = false ∧ b64decode "YQ=!=".toList = some [97] ∧
     validB64 "YR==".toList = false ∧ b64decode "YR==".toList = some [97] := by decide
 
+/-! ## 6. duration: all field combinations, both signs -/
+
+/-- every `relativedelta` the constructor produces is in normal form (`_fix`), whatever the arguments -/
+theorem c06_duration_constructed_normal (d : Dur) : d.fix.normal := Dur.fix_normal d
+
+/-- every normal-form duration whose fields do not disagree in sign: the text is a valid xs:duration literal and parses
+    back to the same seven fields -/
+theorem c06_duration_roundtrip (d : Dur) (hn : d.normal) (hs : d.nonneg ∨ d.nonpos) :
+    ∃ s, reprDur d = some s ∧ parseDur s = some d ∧ validDur s = true := dur_roundtrip d hn hs
+
+/-- mixed signs are rejected with ValueError, not serialised -/
+theorem c06_duration_mixed_sign_rejected (d : Dur)
+    (h : (d.fix.fields.any (· < 0) && d.fix.fields.any (· > 0)) = true) : reprDur d = none := by
+  simp only [reprDur]; rw [if_pos h]
+
+/-- witness of the remaining laxness of DURATION_RE (known finding `lex:parse:duration:accepts-invalid:empty-designator`) -/
+theorem c06_duration_lax_witness :
+    validDur "P".toList = false ∧ (parseDur "P".toList).isSome = true ∧
+    validDur "P1YT".toList = false ∧ (parseDur "P1YT".toList).isSome = true := by decide
+
+/-! ## 7. float / double: the special-literal table (finite digit strings are CPython's and not modelled) -/
+
+theorem c06_float_specials :
+    ∀ v ∈ [FloatV.nan, FloatV.inf, FloatV.ninf],
+      parseFloatSpecial (reprFloat v) = some v ∧ validFloat (reprFloat v) = true := by decide
+
+theorem c06_float_special_texts :
+    reprFloat .nan = "NaN".toList ∧ reprFloat .inf = "INF".toList ∧ reprFloat .ninf = "-INF".toList := by decide
+
 /-! ## non-vacuity: the hypotheses are satisfiable, the functions compute -/
 
 example : (⟨2024, 2, 29, some 840⟩ : DateV).ok ∧ Tz.inXsd (some 840) := by
@@ -291,6 +320,12 @@ example : parseInt (genRange .byte) "128".toList = none ∧ parseInt (genRange .
 example : b64encode [97, 98, 99, 100] = "YWJjZA==".toList ∧ hexEncode [0, 255] = "00ff".toList := by decide
 example : Bytes.ok [0, 255, 97] := by intro b hb; simp at hb; omega
 example : announced "UnsignedInt" = some "xs:unsignedInt" ∧ announced "UnsignedByte" = some "xs:unsignedByte" := by decide
+example : (⟨0, 0, -3, 0, -1, -30, -500000⟩ : Dur).normal ∧ (⟨0, 0, -3, 0, -1, -30, -500000⟩ : Dur).nonpos := by
+  constructor <;> simp [Dur.normal, Dur.nonpos]
+example : reprDur ⟨0, 0, -3, 0, -1, -30, -500000⟩ = some "-P3DT1M30.5S".toList := by decide
+example : parseDur "-P3DT1M30.5S".toList = some ⟨0, 0, -3, 0, -1, -30, -500000⟩ := by decide
+example : parseDur "PT90S".toList = some ⟨0, 0, 0, 0, 1, 30, 0⟩ ∧ parseDur "PT0.000249S".toList = some ⟨0, 0, 0, 0, 0, 0, 249⟩ := by decide
+example : reprDur ⟨0, 0, -3, 0, 0, 10, 0⟩ = none := by decide
 example : ¬ LaxZone "2023-02-29".toList ∧ dropNl "2023-02-29".toList = "2023-02-29".toList :=
   ⟨fun h => absurd (LaxZone.colon h) (by decide), by decide⟩
 
